@@ -17,7 +17,9 @@ DECIDED = ["R05a maintenance entry points call what they document (MUST)",
            "R05e FileStorage::rename ordering; FileStorage::copy = backup + new",
            "R05e (cont.) rename deletes the OLD log",
            "R05f cached DbVec length and stored length change together",
-           "R05g DbIndexes keeps the in-memory and the stored index lists aligned"]
+           "R05g DbIndexes keeps the in-memory and the stored index lists aligned",
+           "R19t slot states of the hash tables are written only by insert / remove / full rehash (WHO table, shared)",
+           "R04b raw storage bytes are read only by the frozen readers (shared with C04)"]
 UNDECIDED = ["equality of query results before/after the maintenance operation (needs execution)"]
 
 DB = "agdb::db::DbImpl::"
@@ -224,4 +226,10 @@ def run(ctx):
         ok = bool(bk and nw) and cfg.find_path(b, [0], nw, avoid=bk) is None
         ctx.ob("R05e", "FileStorage::copy", ok, "copy = backup(name)? then new(name)" if ok else
                "FileStorage::copy no longer copies the file before opening it", b.where)
+    # tombstone discipline of the open-addressing tables behind aliases and indexes (shrink_to_fit must keep every key reachable) (shared rule, rules/maps_common.py)
+    from rules import maps_common
+    maps_common.slot_state_rule(ctx)
+    # data relocated by the compaction is read through the frozen raw readers only (R04b, shared with C04)
+    from rules import C04
+    C04.reader_rule(ctx)
     return 0
